@@ -54,7 +54,7 @@ theorem imageApp_foldl (db : DB) : ∀ (xs : List MM.Term) (acc : NPat),
   | cons x xs ih => intro acc; simp only [imageApp_cons, List.map_cons, List.foldl_cons]; exact ih _
 
 /-- the numbering context: `fs` = the variables with a `$f` statement (names), all declared; the model's floats are their numbers;
-the model database declares no notation (`dbOfMDb` produces none) -/
+the model database declares no notation (`dbOfCore` produces none) -/
 structure Numbering (nm : Names) (fs : List String) (db : DB) : Prop where
   declared : ∀ x ∈ fs, x ∈ nm.vars
   floats : db.floats = fs.map nm.vars.idxOf
@@ -379,7 +379,7 @@ def coherentFloats0 (sp : Spec) (mdb : MDb) : Bool :=
   ((floatPairs mdb).all fun p => sp.names.vars.contains p.2 && decide (sp.table.lookup p.1 = some (Lbl.float (sp.names.vars.idxOf p.2)))) &&
   decide (sp.db.floats = ((floatPairs mdb).map (·.2)).map sp.names.vars.idxOf)
 
-/-- the `$f` statements; and the model database declares no notation (`dbOfMDb` never produces one: `Ctor.body = none`) -/
+/-- the `$f` statements; and the model database declares no notation (`dbOfCore` never produces one: `Ctor.body = none`) -/
 def coherentFloats (sp : Spec) (mdb : MDb) : Bool :=
   coherentFloats0 sp mdb && sp.db.ctors.all (·.body.isNone)
 
@@ -406,7 +406,7 @@ def coherentProof (sp : Spec) (mdb : MDb) : Bool :=
 /-- the supported fragment -/
 def InFragment (mdb : MDb) (target : String) : Bool :=
   InFragmentM mdb (dbFuel mdb) target &&
-  match dbOfMDb mdb target with
+  match dbOfCore mdb target with
   | some sp => (mdb.filter isAxItem).all (coherentItem sp) && coherentFloats sp mdb && coherentGoal sp mdb && coherentProof sp mdb && sp.db.wf
   | none => false
 
@@ -569,10 +569,10 @@ theorem agree_goal {σ : String → Nat} {fuel : Nat} {mdb : MDb} {target : Stri
     exact patOf_image sp.names _ sp.db (numbering_of_coherent sp mdb hcf) (tsize t) t T (Nat.le_refl _) hT
 
 /-- THE TIE: on a database of the fragment, for every fuel `≥ dbFuel`, the generated converter returns a converter object that
-answers every query about every `$f` label and every `$a` label as `XProofTie.ofDB (dbOfMDb mdb)` answers it for the `Lbl` the
+answers every query about every `$f` label and every `$a` label as `XProofTie.ofDB (dbOfCore mdb)` answers it for the `Lbl` the
 label table gives the label (symbols numbered by the `$c` positions, variables by the `$v` positions) -/
 theorem converter_agrees (mdb : MDb) (target : String) (h : InFragment mdb target = true) :
-    ∃ sp, dbOfMDb mdb target = some sp ∧ sp.db.wf = true ∧
+    ∃ sp, dbOfCore mdb target = some sp ∧ sp.db.wf = true ∧
       ∀ fuel, dbFuel mdb ≤ fuel → ∃ c, MetamathConverter_init sp.names.consts.idxOf fuel default mdb = .ok c ∧
         (∀ l v, (l, v) ∈ floatPairs mdb →
           sp.table.lookup l = some (Lbl.float (sp.names.vars.idxOf v)) ∧
@@ -589,7 +589,7 @@ theorem converter_agrees (mdb : MDb) (target : String) (h : InFragment mdb targe
           lemmas sp.names.consts.idxOf fuel c = [target]) := by
   simp only [InFragment, Bool.and_eq_true] at h
   obtain ⟨hM, hsp⟩ := h
-  cases hdb : dbOfMDb mdb target with
+  cases hdb : dbOfCore mdb target with
   | none => simp [hdb] at hsp
   | some sp =>
     simp only [hdb, Bool.and_eq_true, List.all_eq_true] at hsp
